@@ -522,7 +522,18 @@ impl Run {
         let mut ctx = Ctx::new(false);
         ctx.counting = false;
         let _watch = activity(format!("replay file {} of {} ({})", file.display(), self.id, sub));
+        {
+            // (an absurd allocation request would abort the process: see alloc.rs)
+            let (id2, sub2, file2) = (self.id.clone(), sub.to_string(), file.to_path_buf());
+            crate::alloc::set_last_words(Some(Box::new(move |size: usize| {
+                println!("VIOLATION property={} replay={}", id2, file2.display());
+                println!("  sub-check: {}  signature: abort/absurd-allocation-request", sub2);
+                println!("  the code under test requested a single allocation of {} bytes while handling this case: the process would be aborted", size);
+                std::process::exit(1);
+            })));
+        }
         let r = guarded(|| p.check(&case, &mut ctx));
+        crate::alloc::set_last_words(None);
         drop(_watch);
         match r {
             Ok(()) => {
@@ -661,6 +672,26 @@ impl Run {
                         .spawn_scoped(s, move || {
                             if let Some(t) = own_tid() {
                                 tidslot.store(t, std::sync::atomic::Ordering::SeqCst);
+                            }
+                            // an allocation request of a terabyte would abort the process before any oracle runs:
+                            // report the case that made it (the reader asked for it while handling a small input)
+                            {
+                                let (slot2, id2, sub2, vdir2) = (slot.clone(), id.to_string(), sub.to_string(), verif_dir());
+                                crate::alloc::set_last_words(Some(Box::new(move |size: usize| {
+                                    // (try_lock: this may run while the worker itself holds the slot)
+                                    let case = slot2.try_lock().ok().and_then(|g| g.as_ref().map(|x| serde_json::to_value(&x.1).unwrap_or(Value::Null))).unwrap_or(Value::Null);
+                                    let dir = vdir2.join("failures");
+                                    let _ = std::fs::create_dir_all(&dir);
+                                    let msg = format!("the code under test requested a single allocation of {} bytes while handling this case: the process would be aborted (memory allocation failure)", size);
+                                    let v = json!({"property": id2, "sub": sub2, "signature": "abort/absurd-allocation-request", "message": msg, "case": case});
+                                    let text = serde_json::to_string_pretty(&v).unwrap_or_default();
+                                    let path = dir.join(format!("{}-{}-abort-{:016x}.json", id2, sub2, h64(&text)));
+                                    let _ = std::fs::write(&path, text);
+                                    println!("VIOLATION property={} replay={}", id2, path.display());
+                                    println!("  sub-check: {}  signature: abort/absurd-allocation-request", sub2);
+                                    println!("  {}", msg);
+                                    std::process::exit(1);
+                                })));
                             }
                             let wseed = h64(&(seed, id.as_str(), sub, wi as u64));
                             let mut seed_bytes = [0u8; 32];
